@@ -286,9 +286,9 @@ func H_solve() {
 	}
 	var errs []error
 	b.imp.providerMap, b.imp.srcMap, errs = buildProviderMap(b.fset, b.hasher, b.imp)
-	vAssertClass(vIff(len(errs) > 0, impBindBad), "nested set: rejected iff a binding's concrete type is not provided by that same set", "bpm-binding-colocation")
+	vA("C11", vIff(len(errs) > 0, impBindBad), "nested set: rejected iff a binding's concrete type is not provided by that same set")
 	if len(errs) > 0 {
-		vAssert(b.imp.providerMap == nil, "buildProviderMap returns no map when it reports errors")
+		vA("C05,C11", b.imp.providerMap == nil, "buildProviderMap returns no map when it reports errors")
 		vCover("imp-binding-rejected")
 		return
 	}
@@ -296,7 +296,7 @@ func H_solve() {
 		b.set.Imports = []*ProviderSet{b.imp}
 	}
 	b.set.providerMap, b.set.srcMap, errs = buildProviderMap(b.fset, b.hasher, b.set)
-	vAssertClass(len(errs) == 0, "a set whose sources have pairwise distinct types and co-located bindings is accepted by buildProviderMap", "bpm-spurious-reject")
+	vA("C10", len(errs) == 0, "a set whose sources have pairwise distinct types and co-located bindings is accepted by buildProviderMap")
 
 	calls, errs := solve(b.fset, vType(g.out), b.given, b.set)
 
@@ -317,11 +317,11 @@ func H_solve() {
 			unused = vOr(unused, vNot(vOr(g.need1[k], g.need2[k])))
 		}
 	}
-	vAssertClass(vImplies(missing, len(errs) > 0), "a needed type without any source must be rejected", "solve-missing-accepted")
-	vAssertClass(vImplies(vAnd(vNot(missing), unused), len(errs) > 0), "a direct Build item that does not contribute must be rejected", "solve-unused-accepted")
-	vAssertClass(vImplies(len(errs) > 0, vOr(missing, unused)), "a complete set in which every direct item contributes must be accepted", "solve-spurious-reject")
+	vA("C06", vImplies(missing, len(errs) > 0), "a needed type without any source must be rejected")
+	vA("C08", vImplies(vAnd(vNot(missing), unused), len(errs) > 0), "a direct Build item that does not contribute must be rejected")
+	vA("C10,C08", vImplies(len(errs) > 0, vOr(missing, unused)), "a complete set in which every direct item contributes must be accepted")
 	if len(errs) > 0 {
-		vAssert(calls == nil, "no plan is returned together with errors")
+		vA("C06", calls == nil, "no plan is returned together with errors")
 		if vConcBool(missing) {
 			vCover("rejected-missing")
 		} else {
@@ -345,55 +345,55 @@ func H_solve() {
 		o := vConc(vTypeID(c.out))
 		k := o % 100
 		second := o >= 100
-		vAssert(k < g.N, "call output is a provided type")
-		vAssert(!second || g.twoOut[k], "call output is a provided type (second output)")
-		vAssert(g.neededID(o), "every planned step is needed by the result (no superfluous call)")
+		vA("C02", k < g.N, "call output is a provided type")
+		vA("C02", !second || g.twoOut[k], "call output is a provided type (second output)")
+		vA("C02", g.neededID(o), "every planned step is needed by the result (no superfluous call)")
 		for cj := 0; cj < ci; cj++ {
-			vAssert(prod[G+cj] != o, "no type is produced twice (each provider called at most once)")
+			vA("C02", prod[G+cj] != o, "no type is produced twice (each provider called at most once)")
 		}
 		switch g.kinds[k] {
 		case nkFunc, nkStruct:
 			p := b.items[k].(*Provider)
 			if g.kinds[k] == nkFunc {
-				vAssert(c.kind == funcProviderCall, "function provider planned as a function call")
+				vA("C02", c.kind == funcProviderCall, "function provider planned as a function call")
 			} else {
-				vAssert(c.kind == structProvider, "struct provider planned as a struct literal")
+				vA("C02", c.kind == structProvider, "struct provider planned as a struct literal")
 				vCover("struct-call")
 			}
-			vAssert(c.name == p.Name && c.pkg == p.Pkg, "call names the provider of its output type")
-			vAssert(len(c.args) == len(g.dep[k]), "one argument per parameter")
-			vAssert(len(c.ins) == len(g.dep[k]), "one input type per parameter")
+			vA("C02", c.name == p.Name && c.pkg == p.Pkg, "call names the provider of its output type")
+			vA("C02", len(c.args) == len(g.dep[k]), "one argument per parameter")
+			vA("C02", len(c.ins) == len(g.dep[k]), "one input type per parameter")
 			for s := range c.args {
-				vAssert(c.args[s] >= 0 && c.args[s] < G+ci, "arguments come from injector parameters or earlier steps")
-				vAssert(prod[c.args[s]] == g.resolve(g.dep[k][s]), "each parameter is fed by the source of its type")
+				vA("C02,C04", c.args[s] >= 0 && c.args[s] < G+ci, "arguments come from injector parameters or earlier steps")
+				vA("C02,C11", prod[c.args[s]] == g.resolve(g.dep[k][s]), "each parameter is fed by the source of its type")
 				if g.kinds[k] == nkStruct {
-					vAssert(c.fieldNames[s] == p.Args[s].FieldName, "struct field names follow the arguments")
+					vA("C02", c.fieldNames[s] == p.Args[s].FieldName, "struct field names follow the arguments")
 				}
 			}
 		case nkValue:
-			vAssert(c.kind == valueExpr, "value planned as value expression")
+			vA("C02", c.kind == valueExpr, "value planned as value expression")
 			vCover("value-call")
 		case nkField, nkFieldP:
 			f := b.items[k].(*Field)
-			vAssert(c.kind == selectorExpr, "field planned as selector")
-			vAssert(c.name == f.Name, "selector names the field")
-			vAssert(len(c.args) == 1, "field step has the parent as only argument")
-			vAssert(c.args[0] >= 0 && c.args[0] < G+ci, "parent comes from an earlier step")
-			vAssert(prod[c.args[0]] == g.resolve(g.dep[k][0]), "field is read from the source of its parent type")
-			vAssert(c.ptrToField == second, "pointer-to-field exactly when the pointer form was requested")
+			vA("C02", c.kind == selectorExpr, "field planned as selector")
+			vA("C02", c.name == f.Name, "selector names the field")
+			vA("C02", len(c.args) == 1, "field step has the parent as only argument")
+			vA("C02,C04", c.args[0] >= 0 && c.args[0] < G+ci, "parent comes from an earlier step")
+			vA("C12,C02", prod[c.args[0]] == g.resolve(g.dep[k][0]), "field is read from the source of its parent type")
+			vA("C12,C02", c.ptrToField == second, "pointer-to-field exactly when the pointer form was requested")
 			vCover("field-call")
 		default:
-			vAssert(false, "a binding or injector argument must not become a step")
+			vA("C02,C11", false, "a binding or injector argument must not become a step")
 		}
 		prod = append(prod, o)
 	}
 	want := g.resolve(g.out)
 	if len(calls) == 0 {
-		vAssert(g.isKind(want, nkGiven), "an injector without steps returns an injector argument of the result type")
-		vAssert(b.set.For(vType(g.out)).IsArg(), "For(result) designates the injector argument")
+		vA("C02", g.isKind(want, nkGiven), "an injector without steps returns an injector argument of the result type")
+		vA("C02", b.set.For(vType(g.out)).IsArg(), "For(result) designates the injector argument")
 		vCover("accepted-0calls")
 	} else {
-		vAssert(prod[len(prod)-1] == want, "the last step produces the result type")
+		vA("C02", prod[len(prod)-1] == want, "the last step produces the result type")
 	}
 	// completeness: every needed callable type has its step
 	for k := 0; k < g.N; k++ {
@@ -405,8 +405,8 @@ func H_solve() {
 			has1 = vOr(has1, prod[G+ci] == k)
 			has2 = vOr(has2, prod[G+ci] == 100+k)
 		}
-		vAssert(vIff(has1, g.need1[k]), "a step exists exactly for the needed types")
-		vAssert(vIff(has2, g.need2[k]), "a step exists exactly for the needed types (second output)")
+		vA("C02", vIff(has1, g.need1[k]), "a step exists exactly for the needed types")
+		vA("C02", vIff(has2, g.need2[k]), "a step exists exactly for the needed types (second output)")
 	}
 	for k := 0; k < g.N; k++ {
 		if g.kinds[k] == nkBind && vConcBool(g.need1[k]) {
